@@ -15,7 +15,11 @@ EXTRA = {"C02-B": ["C01", "C08"], "C08-A": ["C01"], "C12-A": [], "C05-A": ["C09"
          # wave 5
          "C08-I": ["C14"], "C08-J": ["C06", "C07"], "C01-I": ["C14"], "C01-J": ["C14", "C20"], "C04-I": ["C14"], "C03-J": ["C14"], "C18-I": ["C14"],
          "C07-J": ["C16"], "C11-J": ["C16", "C15"], "C15-J": ["C16"], "C13-J": ["C07", "C06"], "C20-J": ["C12"], "C11-I": ["C17"], "C16-J": ["C11", "C17"],
-         "C12-J": ["C20"], "C02-J": ["C03"], "C05-J": ["C03"], "C17-J": ["C03"], "C10-I": ["C16"], "C18-J": ["C02"]}
+         "C12-J": ["C20"], "C02-J": ["C03"], "C05-J": ["C03"], "C17-J": ["C03"], "C10-I": ["C16"], "C18-J": ["C02"],
+         # wave 6
+         "C01-L": ["C14"], "C02-L": ["C18"], "C03-L": ["C01"], "C04-L": ["C02"], "C06-K": ["C07"], "C06-L": ["C16"], "C07-K": ["C06"], "C07-L": ["C16"],
+         "C08-K": ["C02"], "C08-L": ["C14"], "C15-K": ["C12"], "C15-L": ["C12"], "C18-K": ["C02"], "C18-L": ["C01"], "C10-K": ["C16"],
+         "C13-L": ["C07", "C08"], "C11-K": ["C17"], "C16-L": ["C06", "C07"], "C17-K": ["C19"], "C09-L": ["C11"], "C12-K": ["C16"]}
 tier = sys.argv[1] if len(sys.argv) > 1 else "quick"
 ids = sys.argv[2:] or sorted(os.path.basename(d) for d in glob.glob(VERIF + "/seeded/C*"))
 manifest = json.load(open(VERIF + "/MANIFEST.json"))
